@@ -3,6 +3,7 @@
 Every deterministic content-model tree up to the bound x every child sequence up to a length bound is
 validated by the real processors; the oracle is the regular language of mc/ref/regex.py.
 """
+import os
 import hashlib
 
 from xmlschema import XMLSchema10, XMLSchema11
@@ -49,7 +50,10 @@ def spaces(tier):
 
 def shards(tier, seed):
     out = []
+    only = os.environ.get('C01_ONLY')       # developer aid: restrict a run to one space (never used by MANIFEST commands)
     for name, n, occs, maxdev, var, sliced in spaces(tier):
+        if only and name != only:
+            continue
         if var == 'all':
             for version in ('1.0', '1.1'):
                 for nk in (1, 2, 3):
@@ -67,6 +71,7 @@ LEAF_VARIANTS = (
     ('ref', lambda o: M.el_ref(o[4], o[1], o[2])),
     ('H', lambda o: M.head(o[1], o[2])),
     ('Habs', lambda o: M.head(o[1], o[2], abstract=True)),
+    ('Hdeep', lambda o: M.head(o[1], o[2], deep=True)),
     ('~any', lambda o: M.wild('~any', o[1], o[2])),
     ('~other', lambda o: M.wild('~other', o[1], o[2])),
     ('~tns', lambda o: M.wild('~tns', o[1], o[2])),
@@ -137,7 +142,8 @@ def sigma_of(model, opn=None):
     if opn is not None:
         syms = syms | M.WILD[opn[1]][1]
         has_wild = True
-    declared = sorted(s for s in syms if s in 'abchmn')
+    el_syms = set().union(*[lf[3] for lf in M.leaves(model) if lf[0] == 'el'])
+    declared = sorted(s for s in syms if s in 'abchmn' or (s in 'yz' and s in el_syms))
     extra = ['x']
     if has_wild:
         extra = [s for s in 'xol' if s in syms] or ['x']
